@@ -76,7 +76,10 @@ prop(
 prop(
     "C01",
     level_text="Refinement of the RFC 8878 transcription (Zstd.Spec, validated against libzstd on every run) by the model of the decoder, proved component by component for all inputs: block headers (all byte patterns; table and guard from the source), window descriptors (all descriptors; operators from the source), offset-history step = RFC rule for every offset value/history, offset values >= 1; code tables = RFC (C14), FSE (C12), Huffman (C13), sequence execution and the composed frame theorem as far as merged (C01_full stays visible; partial). The executable model is replayed against the real decoder on libzstd frames of every level/window/flag/flush pattern, ruzstd frames, and synthetic frames using features no compressor emits on demand (all sequence-count encodings, repeat offsets in both literal-length cases, offsets at exactly the window distance, every header layout), under several drivers; oracles: original data, libzstd, reference executor.",
-    engines=[{"name": "spec"}, {"name": "dec"}, {"name": "hostile"}],
+    engines=[{"name": "spec"}, {"name": "dec"}, {"name": "hostile"}, {"name": "bits"}, {"name": "fse"}, {"name": "huf"}, {"name": "ring"}],
+    # the decoder is only as right as its components: a wrong bit read, FSE/Huffman table or window copy found by a
+    # component engine is a violation of C01 as well
+    also_reports={"bits": ["C12"], "fse": ["C12"], "huf": ["C13"], "ring": ["C04"]},
     modelled="frame/block plumbing, sequence execution and the decode buffer (abstract content) are hand-written mirrors of the Rust; literals and sequence DECODING in the executable model currently go through the Spec functions (the faithful FSE/Huffman mirrors are verified separately in C12/C13)",
     assumptions=["Zstd.Spec is a faithful transcription of RFC 8878 (validated against libzstd 1.5.7 frames on every run, not proved against the English text)"],
 )
